@@ -26,7 +26,7 @@ from pyvc.interp import PyRaise
 from pyvc.loops import LoopSpec
 from pyvc.models import GhostLock
 from pyvc.harness import native_call
-from .common import raw, loop_keys, install_version_contracts, sym_context, real_context, protocol_of_index
+from .common import harness_connection, native_connection, lock_name, raw, loop_keys, install_version_contracts, sym_context, real_context, protocol_of_index
 from .c14 import install_exc_info
 
 ASSUMPTIONS = [
@@ -56,7 +56,7 @@ class PlaySteps(Unit):
         E = I.E
         self.events = []
         ctx, i = sym_context(I, 'supported')
-        conn = object.__new__(Connection)
+        conn = harness_connection()
         old = Packet()
         conn.__dict__.update(context=ctx, _outgoing_packet_queue=deque([old]), spawned=False, connected=True,
                              options=types.SimpleNamespace(compression_enabled=False, compression_threshold=-1))
@@ -142,7 +142,7 @@ def replay_play(rng=None):
     n = 0
     for proto in (47, 107, 340, 757):
         ctx = ConnectionContext(protocol_version=proto)
-        conn = object.__new__(Connection)
+        conn = native_connection()
         conn.context, conn._outgoing_packet_queue, conn.spawned = ctx, deque(), False
         conn.options = types.SimpleNamespace(compression_enabled=False, compression_threshold=-1)
         closed = []
@@ -208,7 +208,7 @@ class KeepAliveWire(Unit):
         from pyvc.values import SBytes
         from minecraft.networking.packets import PacketBuffer
         ctx, i = sym_context(I, 'supported')
-        conn = object.__new__(Connection)
+        conn = harness_connection()
         conn.__dict__.update(context=ctx, _outgoing_packet_queue=deque(), spawned=False, connected=True,
                              options=types.SimpleNamespace(compression_enabled=False, compression_threshold=-1))
         r = object.__new__(PlayingReactor)
@@ -316,7 +316,7 @@ def replay_wire(i, data):
     import io
     from minecraft.networking.packets import PacketBuffer
     ctx = real_context(i)
-    conn = object.__new__(Connection)
+    conn = native_connection()
     conn.context, conn._outgoing_packet_queue, conn.spawned = ctx, deque(), False
     r = PlayingReactor(conn)
     pkt = clientbound.play.KeepAlivePacket(ctx)
@@ -392,7 +392,7 @@ class PopPacket(Unit):
         E = I.E
         n = E.new_int('queue-length', 0, None)
         q = AbsDeque(n)
-        conn = object.__new__(Connection)
+        conn = harness_connection()
         conn.__dict__['_outgoing_packet_queue'] = q
         written = []
         I.override(raw(Connection, '_write_packet'), lambda I_, c, p: written.append(p), kind='contract')
@@ -410,7 +410,7 @@ class PopPacket(Unit):
         return None
 
     def replay(self, model, label):
-        conn = object.__new__(Connection)
+        conn = native_connection()
         conn._outgoing_packet_queue = deque(['a', 'b', 'c'])
         w = []
         conn._write_packet = w.append
@@ -522,7 +522,7 @@ class RunLoop(Unit):
         self.n0 = E.new_int('queue-length', 0, None)
         self.queue = AbsDeque(self.n0)
         lock = GhostLock()
-        conn = object.__new__(Connection)      # real class: private helpers of the loop resolve; effects are ghost closures
+        conn = harness_connection()      # real class: private helpers of the loop resolve; effects are ghost closures
         fail_at = E.fork(2, 'write-fails')
         ioerr = IOError('broken pipe')
         timeouts = []
@@ -582,7 +582,7 @@ class RunLoop(Unit):
                 unit.thread.__dict__['interrupt'] = True       # PlayingReactor.react -> Connection.disconnect()
             elif E.fork(2, 'reaction-swaps-transport'):
                 swap_transport()
-        conn._write_lock = lock
+        setattr(conn, lock_name(), lock)
         conn._pop_packet = _pop_packet
         conn._outgoing_packet_queue = self.queue
         unit.generation = 0
@@ -627,8 +627,8 @@ class RunLoop(Unit):
 
 def replay_run():
     """The real _run against a scripted connection: order and exactly-once across the batch limits."""
-    conn = object.__new__(Connection)          # a real Connection: helpers the loop may call exist; I/O is scripted
-    conn._write_lock = threading.RLock()
+    conn = native_connection()          # a real Connection: helpers the loop may call exist; I/O is scripted
+    setattr(conn, lock_name(), threading.RLock())
     q = deque(range(700))
     written, reacted = [], []
     incoming = deque('p%d' % i for i in range(120))
@@ -674,8 +674,8 @@ def replay_run():
     if bad is None:
         # the reader fails: _run must end with that very exception (it is run() that routes it)
         for exc in (EOFError('Unexpected end of stream.'), ValueError('bad frame'), OSError(104, 'Connection reset by peer')):
-            conn2 = object.__new__(Connection)
-            conn2._write_lock = threading.RLock()
+            conn2 = native_connection()
+            setattr(conn2, lock_name(), threading.RLock())
             conn2._outgoing_packet_queue = deque()
             conn2._pop_packet = lambda: False
             calls = []
@@ -709,7 +709,7 @@ class HandleExit(Unit):
         calls = []
         connected = bool(E.fork(2, 'connected'))
         has_cb = bool(E.fork(2, 'callback'))
-        conn = object.__new__(Connection)
+        conn = harness_connection()
         conn.__dict__.update(connected=connected, handle_exit=(lambda: calls.append(1)) if has_cb else None)
         I.call(raw(Connection, '_handle_exit'), conn)
         E.check('exit.callback-exactly-once-iff', len(calls) == (1 if (not connected and has_cb) else 0),
